@@ -80,3 +80,16 @@ type design = { outputs : (string * vexp) list; next : (string * vexp) list;
                 wires : (string * vexp) list;
                 mem_writes : (string * (vexp * (vexp * vexp))) list; nx : 
                 nat }
+
+(** val evalp : env -> (string * vexp) -> string * coq_Z **)
+
+let evalp e p =
+  ((fst p), (eval e (snd p)))
+
+(** val evalw :
+    env -> (string * (vexp * (vexp * vexp))) ->
+    string * (coq_Z * (coq_Z * coq_Z)) **)
+
+let evalw e p =
+  ((fst p), ((eval e (fst (snd p))), ((eval e (fst (snd (snd p)))),
+    (eval e (snd (snd (snd p)))))))
